@@ -9,7 +9,8 @@ enum Rule { a, b, c }
 const RULES: [Rule; 3] = [Rule::a, Rule::b, Rule::c];
 
 #[derive(Clone, Debug)]
-struct T { rule: Rule, start: usize, end: usize, kids: Vec<T> }
+struct T { rule: Rule, start: usize, end: usize, kids: Vec<T>, tag: u8 }
+const TAGS: [Option<&str>; 3] = [None, Some("t"), Some("u")];
 
 /// all forests over [lo, hi) with at most `budget` nodes and depth <= d
 fn forests(lo: usize, hi: usize, budget: usize, d: usize) -> Vec<Vec<T>> {
@@ -22,7 +23,7 @@ fn forests(lo: usize, hi: usize, budget: usize, d: usize) -> Vec<Vec<T>> {
             if used > budget { continue; }
             for rest in forests(e, hi, budget - used, d) {
                 if e == s && !rest.is_empty() && rest[0].start == s && rest[0].end == s { continue; }
-                let mut v = vec![T { rule: RULES[(s + e + d) % 3], start: s, end: e, kids: kids.clone() }];
+                let mut v = vec![T { rule: RULES[(s + e + d) % 3], start: s, end: e, kids: kids.clone(), tag: 0 }];
                 v.extend(rest);
                 out.push(v);
             }
@@ -34,15 +35,17 @@ fn count(f: &[T]) -> usize { f.iter().map(|t| 1 + count(&t.kids)).sum() }
 
 fn build<'i>(input: &'i str, f: &[T]) -> Pairs<'i, Rule> {
     fn add<'i>(b: PairsBuilder<'i, Rule>, t: &T) -> PairsBuilder<'i, Rule> {
-        if t.kids.is_empty() { b.rule(t.rule, t.start, t.end) }
-        else { let kids = t.kids.clone(); b.rule_with(t.rule, t.start, t.end, move |mut i| { for k in &kids { i = add(i, k); } i }) }
+        let b = if t.kids.is_empty() { b.rule(t.rule, t.start, t.end) }
+        else { let kids = t.kids.clone(); b.rule_with(t.rule, t.start, t.end, move |mut i| { for k in &kids { i = add(i, k); } i }) };
+        match TAGS[t.tag as usize] { Some(tg) => b.tag(tg), None => b }
     }
     let mut b = PairsBuilder::new(input);
     for t in f { b = add(b, t); }
     b.build()
 }
 fn show(f: &[T]) -> String {
-    f.iter().map(|t| if t.kids.is_empty() { format!("{:?}({},{})", t.rule, t.start, t.end) } else { format!("{:?}({},{},[{}])", t.rule, t.start, t.end, show(&t.kids)) }).collect::<Vec<_>>().join(",")
+    f.iter().map(|t| { let tg = match TAGS[t.tag as usize] { Some(x) => format!("#{}", x), None => String::new() };
+        if t.kids.is_empty() { format!("{:?}({},{}){}", t.rule, t.start, t.end, tg) } else { format!("{:?}({},{},[{}]){}", t.rule, t.start, t.end, show(&t.kids), tg) } }).collect::<Vec<_>>().join(",")
 }
 fn flat<'a>(f: &'a [T], out: &mut Vec<&'a T>) { for t in f { out.push(t); flat(&t.kids, out); } }
 
@@ -50,6 +53,7 @@ fn same(p: &Pair<Rule>, t: &T, input: &str) -> Result<(), String> {
     if p.as_rule() != t.rule { return Err(format!("as_rule {:?} != {:?}", p.as_rule(), t.rule)); }
     if p.as_str() != &input[t.start..t.end] { return Err(format!("as_str {:?} != {:?}", p.as_str(), &input[t.start..t.end])); }
     let sp = p.as_span(); if (sp.start(), sp.end()) != (t.start, t.end) { return Err("as_span".into()); }
+    if p.as_node_tag() != TAGS[t.tag as usize] { return Err(format!("as_node_tag {:?} != {:?}", p.as_node_tag(), TAGS[t.tag as usize])); }
     Ok(())
 }
 fn check_pairs(ps: Pairs<Rule>, f: &[T], input: &str, depth: usize) -> Result<(), String> {
@@ -78,6 +82,18 @@ fn check_pairs(ps: Pairs<Rule>, f: &[T], input: &str, depth: usize) -> Result<()
     for (p, t) in got.iter().zip(fl.iter()) { same(p, t, input)?; }
     let gotr: Vec<_> = ps.clone().flatten().rev().collect();
     for (p, t) in gotr.iter().zip(fl.iter().rev()) { same(p, t, input)?; }
+    // node tags: find_tagged is the flattened (pre-order) sequence filtered by tag, find_first_tagged its first element
+    for tg in ["t", "u"] {
+        let want: Vec<&&T> = fl.iter().filter(|t| TAGS[t.tag as usize] == Some(tg)).collect();
+        let got: Vec<_> = ps.clone().find_tagged(tg).collect();
+        if got.len() != want.len() { return Err(format!("find_tagged({:?}) yields {} pairs, the tree has {}", tg, got.len(), want.len())); }
+        for (p, t) in got.iter().zip(want.iter()) { same(p, t, input).map_err(|e| format!("find_tagged({:?}): {}", tg, e))?; }
+        match (ps.find_first_tagged(tg), want.first()) {
+            (None, None) => {}
+            (Some(p), Some(t)) => same(&p, t, input).map_err(|e| format!("find_first_tagged({:?}) is not the first tagged pair in pre-order: {}", tg, e))?,
+            (g, w) => return Err(format!("find_first_tagged({:?}) is_some = {}, the tree has {} tagged pairs", tg, g.is_some(), if w.is_some() { "some" } else { "no" })),
+        }
+    }
     // per pair: into_inner, single, tokens
     for (p, t) in ps.clone().zip(f.iter()) {
         let one = Pairs::single(p.clone());
@@ -101,16 +117,23 @@ fn main() {
     if args.len() >= 3 && args[1] == "--replay" {
         // {"tree":"a(0,3,[b(0,1)])"} - re-enumerate and find the tree with that rendering
         let j = &args[2]; let key = "\"tree\":\""; let a = j.find(key).unwrap() + key.len(); let b = j[a..].find('"').unwrap() + a; let want = &j[a..b];
-        for f in forests(0, 3, 3, 3) { let g = remap(&f, &bds); if show(&g) == want {
+        for f0 in forests(0, 3, 3, 3) { for f in taggings(&f0) { let g = remap(&f, &bds); if show(&g) == want {
             match run(input, &g) { Ok(()) => println!("tree [{}] over {:?}: every view agrees on this tree", want, input), Err(e) => { println!("tree [{}] over {:?} FAILS: {}", want, input, e); std::process::exit(1) } }
-            return; } }
+            return; } } }
         println!("tree not found"); std::process::exit(2);
     }
-    for f in forests(0, 3, 3, 3) {
+    for f0 in forests(0, 3, 3, 3) { for f in taggings(&f0) {
         let g = remap(&f, &bds);
         if let Err(e) = run(input, &g) { println!("WITNESS {{\"tree\":\"{}\",\"input\":\"x\\u00e9z\",\"what\":\"{}\"}}", show(&g), e.replace('"', "'")); return; }
-    }
-    println!("NO-WITNESS all forests with <= 3 nodes over the 4 boundaries of a 3-character input agree in every view");
+    } }
+    println!("NO-WITNESS all forests with <= 3 nodes over the 4 boundaries of a 3-character input, with every assignment of node tags from {{none, t, u}}, agree in every view");
 }
 // positions 0..3 index boundaries
-fn remap(f: &[T], b: &[usize]) -> Vec<T> { f.iter().map(|t| T { rule: t.rule, start: b[t.start], end: b[t.end], kids: remap(&t.kids, b) }).collect() }
+fn remap(f: &[T], b: &[usize]) -> Vec<T> { f.iter().map(|t| T { rule: t.rule, start: b[t.start], end: b[t.end], kids: remap(&t.kids, b), tag: t.tag }).collect() }
+/// every assignment of {none, "t", "u"} to the nodes (pre-order numbering)
+fn taggings(f: &[T]) -> Vec<Vec<T>> {
+    fn set(f: &mut [T], code: &mut usize) { for t in f.iter_mut() { t.tag = (*code % 3) as u8; *code /= 3; set(&mut t.kids, code); } }
+    let n = count(f); let mut out = vec![];
+    for m in 0..3usize.pow(n as u32) { let mut g = f.to_vec(); let mut c = m; set(&mut g, &mut c); out.push(g); }
+    out
+}
